@@ -31,6 +31,7 @@ func callDec(lines []string) (obs Sx) {
 			obs = Sym("panic")
 		}
 	}()
+	dbgTick()
 	return sxMsgs(rpl.RawPanelASCIIstringsToInboundMessages(lines), payloadProto)
 }
 
@@ -88,6 +89,7 @@ func emitC02(lines []string) Sx {
 				obs = Sym("panic")
 			}
 		}()
+		dbgTick()
 		msgs = rpl.RawPanelASCIIstringsToInboundMessages(lines)
 		obs = sxMsgs(msgs, payloadProto)
 	}()
